@@ -71,6 +71,21 @@ def classify_root(cn, t):
     return ("OTHER", cn.show(t), None)
 
 
+def _arrayish(t, depth=0):
+    if not isinstance(t, tuple) or not t or depth > 12:
+        return False
+    k = t[0]
+    if k in ("comp", "listobj", "list", "tuple", "setlit", "slice", "cmp", "loopout", "unknown"):
+        return True
+    if k == "call" and isinstance(t[1], str) and (t[1].startswith("numpy.") or t[1].startswith("?")):
+        return True
+    if k == "attr" and isinstance(t[2], str) and t[2].startswith("_"):
+        return True
+    if k == "const":
+        return isinstance(t[1], (tuple, list))
+    return any(_arrayish(x, depth + 1) for x in t[1:] if isinstance(x, tuple))
+
+
 def store_effect(cn, ev):
     """classify a store event into an Effect (or None for local containers / fresh
     object fields)"""
@@ -94,8 +109,11 @@ def store_effect(cn, ev):
             # T[:, col] = v : one column of every row
             fam, elem = cn.index_family(idx[1][1])
             return Effect(ev, "column", base, "ALL-ROWS", fam, elem, d["value"])
-        if idx[0] == "tuple" and len(idx[1]) == 2 and idx[1][0][0] != "slice" \
-                and idx[1][1][0] != "slice" and d["idx"][0] == "tuple":
+        r0 = idx[1][0] if idx[0] == "tuple" and len(idx[1]) == 2 else None
+        # (one row - not an index array / mask: nothing in the row index is a sequence, a numpy
+        # call or a private table)
+        scalar_row = r0 is not None and not _arrayish(r0)
+        if scalar_row and idx[1][1][0] != "slice" and d["idx"][0] == "tuple":
             # T[r, c] = v  is  T[r][c] = v : one cell of the row r
             import copy as _copy
             ev2 = _copy.copy(ev)
